@@ -337,3 +337,42 @@ Proof.
       * congruence.
     + intros H Hr. inversion H; subst ob. cbn in Hr. congruence.
 Qed.
+
+(* ------------------------------------------------------------------ declared scopes the code cannot use *)
+(* the authority's option carries a non-zero SCOPE *)
+Definition tailored (up : uresp) : bool :=
+  match u_opts up with
+  | Some l => match first_ecs l with Some sub => negb (e_scope sub =? 0) | None => false end
+  | None => false
+  end.
+
+(* when ReadResponseScope accepts the option, a miss files the answer under the declared scope cut
+   to min(declared, forwarded, floor) *)
+Lemma tailored_answer_filed_scoped c st qy up aged rf st' ob s rs :
+  serve c st qy up aged rf = (st', ob) -> ob_src ob = 0 ->
+  req_scope_of c qy = Some s -> read_response_scope (u_opts up) = Some rs ->
+  exists ttl, ob_stored ob = Some (normalize_scope (clamp_scope (policy_of (c_b c)) (Some rs) (Some s)), ttl).
+Proof.
+  unfold serve, req_scope_of. intros H Hsrc Hcs Hrs.
+  destruct (scoped_lookup st (q_name qy) (q_cd qy) _) as [[e0 sc]|].
+  - destruct (c_prefetch c && aged && prefetch_eligible e0); inversion H; subst ob; discriminate.
+  - destruct (st_lookup st (q_name qy) (q_cd qy) None) as [e0|].
+    + destruct (c_prefetch c && aged && prefetch_eligible e0); inversion H; subst ob; discriminate.
+    + inversion H; subst ob; cbn. rewrite Hcs, Hrs. eexists. reflexivity.
+Qed.
+
+(* ... but a SCOPE longer than the family's addresses (here /33 on IPv4), or one whose family and address
+   disagree, makes ReadResponseScope report "no scope": the tailored answer is filed under the shared
+   key and the next client, who sent no subnet option at all, is served it *)
+Definition overlong_cfg : ccfg := mk_ccfg (mk_bargs true 0 0 0 0 []) 0 false.
+Definition overlong_ops : list cop :=
+  [ mk_cop (mk_query (mk_ipb 4 3325256714) (Some [OEcs ecs_a]) false 0)
+           (mk_uresp 1 60000000000 (Some [OEcs (mk_ecs 1 24 33 (mk_ipb 4 3405803776))])) false (mk_uresp 2 60000000000 None);
+    mk_cop (mk_query (mk_ipb 4 3325256715) (Some []) false 0) (mk_uresp 3 60000000000 None) false (mk_uresp 4 60000000000 None) ].
+
+Lemma overlong_scope_is_shared :
+  tailored (mk_uresp 1 60000000000 (Some [OEcs (mk_ecs 1 24 33 (mk_ipb 4 3405803776))])) = true /\
+  snd (run overlong_cfg [] overlong_ops) =
+  [ mk_obs 0 1 (Some (Some ecs_a)) (Some (None, 60000000000%Z)) None;
+    mk_obs 2 1 None None None ].
+Proof. vm_compute. split; reflexivity. Qed.
